@@ -35,6 +35,7 @@ def LowerEv.ending {α : Type} : LowerEv α → Option ErrKind
 callback, and the callback cancels -/
 def LowerEv.appCancels {α : Type} : LowerEv α → Bool
   | .item _ .ok c => c
+  | .cancel => true
   | _ => false
 
 /-- the message this event hands to the application, if the loop is still running -/
@@ -86,6 +87,7 @@ theorem step_running (e : LowerEv α) :
     | network k => simp [step, LowerEv.fetched, LowerEv.ending, LowerEv.appCancels]
   | stop => simp [step, LowerEv.fetched, LowerEv.ending, LowerEv.appCancels]
   | raise k => simp [step, LowerEv.fetched, LowerEv.ending, LowerEv.appCancels]
+  | cancel => simp [step, LowerEv.fetched, LowerEv.ending, LowerEv.appCancels]
 
 /-- **C07 (block-wise notifications: what the application is told, exactly).** For every sequence
 of things the lower iteration yields and every outcome of every fetch: the application's
@@ -208,6 +210,74 @@ theorem C07_bw_nothing_after (pre post : List (LowerEv α))
   rw [run_append, run_not_running _ h]
   simp
 
+/-- **C07 (an observation the application cancels gives up its token, however early).** Whenever the
+application's observation is no longer served by the loop — it was cancelled before the loop's task
+took its first step (before the first response, during the fetch of its body, right after
+`await request.response`), dropped, cancelled later between two items or from inside a callback, or
+the loop has ended — `lower_observation.cancel()` has been reached, so that the lower request
+withdraws from its pipe at its next event and the token is retired
+(`C07_nothing_after_app_cancel`, `C07_joint_end_retires_token`: "later notifications on that token
+are rejected"); an observation cancelled early or dropped is told nothing, whatever arrives; and
+conversely the lower observation is kept exactly while the loop is running, in which case no
+termination signal has been given. -/
+theorem C07_bw_cancel_gives_up_lower (b : Start) (es : List (LowerEv α)) :
+    (b ≠ .alive → runFrom b es = (.cancelled, []) ∧ lowerGivenUp (runFrom b es).1 = true) ∧
+    ((runFrom b es).1 ≠ .running → lowerGivenUp (runFrom b es).1 = true) ∧
+    ((runFrom b es).1 = .running → lowerGivenUp (runFrom b es).1 = false ∧ b = .alive ∧
+      errbacks (runFrom b es).2 = [] ∧ ∀ e ∈ es, e.ending = none ∧ e.appCancels = false) := by
+  refine ⟨?_, ?_, ?_⟩
+  · intro hb
+    have hs : start b = .cancelled := by cases b <;> simp_all [start]
+    simp only [runFrom, hs]
+    rw [run_not_running .cancelled (by simp)]
+    exact ⟨rfl, rfl⟩
+  · intro h
+    cases hs : (runFrom b es).1 <;> simp_all [lowerGivenUp]
+  · intro h
+    have hb : b = .alive := by
+      cases b with
+      | alive => rfl
+      | cancelledEarly =>
+        simp only [runFrom, start] at h
+        rw [run_not_running .cancelled (by simp)] at h
+        cases h
+      | collected =>
+        simp only [runFrom, start] at h
+        rw [run_not_running .cancelled (by simp)] at h
+        cases h
+    subst hb
+    have key : ∀ l : List (LowerEv α), (run .running l).1 = .running →
+        ∀ e ∈ l, e.ending = none ∧ e.appCancels = false := by
+      intro l
+      induction l with
+      | nil => intro _ e he; cases he
+      | cons e l ih =>
+        intro hl
+        rw [run_cons] at hl
+        have h1 := (step_running e).2
+        by_cases hend : e.ending.isSome = true
+        · rw [h1] at hl
+          simp only [hend, ↓reduceIte] at hl
+          rw [run_not_running .ended (by simp)] at hl
+          cases hl
+        · have hend' : e.ending = none := by
+            cases he : e.ending <;> simp_all
+          cases hc : e.appCancels
+          · rw [h1] at hl
+            simp only [hend', Option.isSome_none, Bool.false_eq_true, ↓reduceIte, hc] at hl
+            intro e' he'
+            rcases List.mem_cons.mp he' with rfl | hm
+            · exact ⟨hend', hc⟩
+            · exact ih hl e' hm
+          · rw [h1] at hl
+            simp only [hend', Option.isSome_none, Bool.false_eq_true, ↓reduceIte, hc] at hl
+            rw [run_not_running .cancelled (by simp)] at hl
+            cases hl
+    have hall := key es (by simpa [runFrom, start] using h)
+    refine ⟨by rw [h]; rfl, rfl, ?_, hall⟩
+    have := (C07_bw_end_only_by_network_or_lower_end es).2.2 (fun e he => (hall e he).1)
+    simpa [runFrom, start, outs] using this
+
 -- non-vacuity and sanity --------------------------------------------------------------------------
 
 /-- notification 1 loses its body to an ETag change, 2 gets through, 3 fails on a bad block, the
@@ -225,5 +295,13 @@ example : outs ([.item 1 .ok false, .item 2 .ok true, .item 3 .ok false, .stop] 
 example : ∀ e ∈ ([.item 1 .failed false, .item 2 .ok false, .item 3 .failed false] : List (LowerEv Nat)),
     e.ending = none ∧ e.appCancels = false := by decide
 example : (run .running exLoop).1 ≠ .running := by decide
+/-- cancelled before the task started: nothing is told, the lower observation is given up; cancelled between two
+items: the later ones are not handed over -/
+example : runFrom .cancelledEarly exLoop = (.cancelled, []) := by decide
+example : lowerGivenUp (runFrom .cancelledEarly ([] : List (LowerEv Nat))).1 = true := by decide
+example : runFrom .alive ([.item 1 .ok false, .cancel, .item 2 .ok false] : List (LowerEv Nat)) =
+    (.cancelled, [.callback 1]) := by decide
+example : lowerGivenUp (runFrom .alive ([.item 1 .ok false, .item 2 .failed false] : List (LowerEv Nat))).1 = false := by
+  decide
 
 end Aiocoap.Observe.Upper
